@@ -1486,6 +1486,8 @@ class Interp:
         raise OutOfSubset(f"slice of {type(base).__name__}")
 
     def setitem(self, base, idx, v):
+        if isinstance(base, (ListObj, DictObj)):
+            self.ps.writes.append((base, "<items>", None, None))
         if isinstance(base, ListObj) and isinstance(idx, int):
             if -len(base.items) <= idx < len(base.items):
                 base.items[idx] = v
@@ -1889,6 +1891,8 @@ class Interp:
     def call_builtin_method(self, o, name, args, kw):
         if hasattr(o, "method"):
             return o.method(self, name, args, kw)
+        if isinstance(o, (ListObj, DictObj, SetObj)) and name in _MUTATORS:
+            self.ps.writes.append((o, "<items>", None, None))
         if isinstance(o, ListObj):
             if name == "append":
                 o.items.append(args[0])
@@ -1989,6 +1993,7 @@ class Interp:
 
 
 _UNREAD = object()
+_MUTATORS = {"append", "pop", "insert", "extend", "sort", "add", "remove", "clear", "update", "setdefault", "discard", "reverse"}
 
 
 class ClassVal:
